@@ -46,8 +46,10 @@ pub fn generate(profile: &str, tier: Tier, seed: u64) -> Scenario {
         "C07" | "C07-fault" => Scenario::R0(r0::generate(&mut rng, tier)),
         "C02" => Scenario::G(g::generate(&mut rng, tier)),
         "C10" => Scenario::W(w::generate(&mut rng, tier, false)),
+        "C10-seq" => Scenario::W(w::generate_sequence(&mut rng, tier)),
         "C10-hard" => Scenario::W(w::generate(&mut rng, tier, true)),
         "C15-reload" => Scenario::Reload(reload::generate(&mut rng, tier)),
+        "C03-file" => Scenario::L(l::generate_file(&mut rng, tier)),
         "C03" | "C15" => Scenario::L(l::generate(&mut rng, tier, profile)),
         other => panic!("unknown profile {}", other),
     }
